@@ -8,6 +8,9 @@ CONSTANTS
   MaxSize = 2
   MaxDims = 3
   Trim = TRUE
+  TrOnly = FALSE
+  AxisBy = "dims"
+  QueryCast = "none"
 CONSTRAINT Export
 INVARIANT ImplCountWhenWhole
 INVARIANT ImplCountFloorCeil
